@@ -10,6 +10,7 @@ import (
 	"encoding/json"
 	"fmt"
 	"math/big"
+	"math/rand"
 	"path/filepath"
 	"sort"
 	"strings"
@@ -80,6 +81,9 @@ type Input struct {
 	// ReplayPath: set only when replaying a failing input that names one path
 	ReplayPath []any `json:"replay_path,omitempty"`
 	ReplayPK   int   `json:"replay_pk,omitempty"`
+	// RngSeed seeds the scenario's own random choices (non-member paths, ...), so that a
+	// replay re-runs exactly the same steps
+	RngSeed int64 `json:"rng_seed"`
 }
 
 type Scen struct {
@@ -98,6 +102,10 @@ type Scen struct {
 	steps   []func(f *coqgen.File) string
 	Members map[string]mzrun.EntryView
 	NoCoq   string // reason why no Coq case is emitted ("" = emit)
+	// shared-tree scenarios: this Scen is merklizer number Idx of Parent
+	Parent  *Shared
+	Idx     int
+	Foreign map[string]bool // keys other parties put into the shared tree
 }
 
 type Env struct {
@@ -314,6 +322,13 @@ func (e *Env) NewScen(in Input) *Scen {
 	return s
 }
 
+// LocalRng makes the scenario's random choices depend only on its stored seed.
+func (e *Env) LocalRng(seed int64) func() {
+	old := e.Cfg.Rng
+	e.Cfg.Rng = rand.New(rand.NewSource(seed))
+	return func() { e.Cfg.Rng = old }
+}
+
 // Close runs the path named by a replayed failing input (if any), restores the package
 // default hasher and evaluates the counting oracle.
 func (e *Env) Close(s *Scen) {
@@ -334,7 +349,16 @@ func (s *Scen) path(pk int, parts []any) (merklize.Path, error) {
 	return merklize.NewPath(parts...)
 }
 
-func (s *Scen) add(fn func(f *coqgen.File) string) { s.steps = append(s.steps, fn) }
+func (s *Scen) add(fn func(f *coqgen.File) string) {
+	if s.Parent != nil {
+		idx := s.Idx
+		s.Parent.steps = append(s.Parent.steps, func(f *coqgen.File) string {
+			return fmt.Sprintf("RGOn %d (%s)", idx, fn(f))
+		})
+		return
+	}
+	s.steps = append(s.steps, fn)
+}
 
 func clone(parts []any) []any { return append([]any{}, parts...) }
 
@@ -349,7 +373,11 @@ func (e *Env) Proof(s *Scen, pk int, parts []any, family string) {
 	}
 	key, kerr := p.MtEntry()
 	proof, val, perr := s.Mz.Proof(context.Background(), p)
-	in := map[string]any{"scenario": s.In, "path": parts, "pk": pk, "family": family}
+	var scen any = s.In
+	if s.Parent != nil {
+		scen = s.Parent.In
+	}
+	in := map[string]any{"scenario": scen, "path": parts, "pk": pk, "family": family}
 	if kerr != nil {
 		if perr == nil {
 			e.Rep.Fail(e.Prop+"-unhashable-path", "Proof succeeded for a path whose key cannot be computed", in)
@@ -360,6 +388,14 @@ func (e *Env) Proof(s *Scen, pk int, parts []any, family string) {
 		return
 	}
 	mem, isMember := s.Members[key.String()]
+	if perr != nil && !isMember && s.Foreign[key.String()] {
+		// the shared tree holds this key for somebody else: Proof reports its assertion error
+		e.Rep.Count("foreign-key-error")
+		s.add(func(f *coqgen.File) string {
+			return fmt.Sprintf("RProof %d %s RPErr", pk, mzrun.PartsCoq(f, parts))
+		})
+		return
+	}
 	if perr != nil {
 		e.Rep.Fail(e.Prop+"-proof-error", fmt.Sprintf("Proof failed for a hashable path (member=%v): %v", isMember, perr), in)
 		s.add(func(f *coqgen.File) string {
@@ -680,9 +716,17 @@ func (s *Scen) Coq(f *coqgen.File, id int) string {
 		strings.Join(es, ";\n  "), mo, strings.Join(steps, ";\n  "))
 }
 
+// CoqCase is anything that renders as one `mcase` term.
+type CoqCase interface {
+	Coq(f *coqgen.File, id int) string
+	ReplayInput() any
+}
+
+func (s *Scen) ReplayInput() any { return s.In }
+
 type Shards struct {
 	Env   *Env
-	Scens []*Scen
+	Scens []CoqCase
 	Size  int
 }
 
@@ -693,6 +737,8 @@ func (sh *Shards) Add(s *Scen) {
 	}
 	sh.Scens = append(sh.Scens, s)
 }
+
+func (sh *Shards) AddCase(c CoqCase) { sh.Scens = append(sh.Scens, c) }
 
 func (sh *Shards) Write(prop string) error {
 	n := len(sh.Scens)
@@ -710,7 +756,7 @@ func (sh *Shards) Write(prop string) error {
 		var cs []string
 		for i := lo; i < hi; i++ {
 			cs = append(cs, sh.Scens[i].Coq(f, i))
-			sh.Env.Rep.Case(name, i, sh.Scens[i].In)
+			sh.Env.Rep.Case(name, i, sh.Scens[i].ReplayInput())
 		}
 		f.Add("Definition cases_ : list mcase := " + coqgen.List(cs) + ".")
 		f.Add("Definition M := Eval vm_compute in mmismatches " + coqgen.Limbs(constants.Q) + " cases_.")
@@ -723,9 +769,283 @@ func (sh *Shards) Write(prop string) error {
 	return nil
 }
 
+// ---------- a caller-provided tree shared by several merklizers ----------
+
+type SharedInput struct {
+	Shared  bool              `json:"shared"`
+	Docs    []json.RawMessage `json:"docs"`
+	Ctx     map[string]string `json:"ctx,omitempty"`
+	Hasher  int               `json:"hasher"`
+	Cfg     bool              `json:"cfg"`
+	RngSeed int64             `json:"rng_seed"`
+}
+
+type Shared struct {
+	In     SharedInput
+	Rc, Rd *hashers.Recorder
+	DefCnt *Counting
+	MT     *merkletree.MerkleTree
+	Adp    merklize.MerkleTree
+	Mzs    []*Scen
+	HL, HM [][3]*big.Int
+	seen   map[string]bool
+	steps  []func(f *coqgen.File) string
+	InTree map[string]bool // every key the shared tree holds
+}
+
+func (sh *Shared) ReplayInput() any { return sh.In }
+
+func (sh *Shared) Coq(f *coqgen.File, id int) string {
+	var steps []string
+	for _, fn := range sh.steps {
+		steps = append(steps, fn(f))
+	}
+	return fmt.Sprintf("mks %d\n %s\n %s\n %s\n %s\n [%s]", id, RhCoq(sh.Rc, f), RhCoq(sh.Rd, f),
+		tabCoq(sh.HL), tabCoq(sh.HM), strings.Join(steps, ";\n  "))
+}
+
+func (e *Env) NewShared(in SharedInput) (*Shared, error) {
+	sh := &Shared{In: in, seen: map[string]bool{}, InTree: map[string]bool{}}
+	sh.Rc = hashers.NewRecorder(Families()[in.Hasher])
+	sh.DefCnt = &Counting{Inner: merklize.PoseidonHasher{}}
+	sh.Rd = hashers.NewRecorder(sh.DefCnt)
+	merklize.SetHasher(sh.Rd)
+	mt, err := merkletree.NewMerkleTree(context.Background(), memory.NewMemoryStorage(), 40)
+	if err != nil {
+		return nil, err
+	}
+	sh.MT, sh.Adp = mt, merklize.MerkleTreeSQLAdapter(mt)
+	return sh, nil
+}
+
+func (e *Env) CloseShared(sh *Shared) {
+	merklize.SetHasher(merklize.PoseidonHasher{})
+	if sh.In.Cfg && sh.DefCnt.N != 0 {
+		e.Rep.Fail(e.Prop+"-default-hasher-called", fmt.Sprintf("the package default hasher was called %d time(s) although a hasher is configured", sh.DefCnt.N), sh.In)
+	}
+}
+
+// snapshot records the node hashes of the tree as it is now (earlier roots stay in the tables).
+func (sh *Shared) snapshot() error {
+	hl, hm, err := treeTables(sh.MT)
+	if err != nil {
+		return err
+	}
+	for _, x := range hl {
+		k := "l" + x[0].String() + "," + x[1].String()
+		if !sh.seen[k] {
+			sh.seen[k] = true
+			sh.HL = append(sh.HL, x)
+		}
+	}
+	for _, x := range hm {
+		k := "m" + x[0].String() + "," + x[1].String()
+		if !sh.seen[k] {
+			sh.seen[k] = true
+			sh.HM = append(sh.HM, x)
+		}
+	}
+	return nil
+}
+
+func (sh *Shared) hasher() merklize.Hasher {
+	if sh.In.Cfg {
+		return sh.Rc
+	}
+	return sh.Rd
+}
+
+func (sh *Shared) refreshForeign() {
+	for _, s := range sh.Mzs {
+		s.Foreign = map[string]bool{}
+		for k := range sh.InTree {
+			if _, own := s.Members[k]; !own {
+				s.Foreign[k] = true
+			}
+		}
+	}
+}
+
+// MerklizeInto merklizes doc into the shared tree; returns the new merklizer's Scen or nil.
+func (e *Env) MerklizeInto(sh *Shared, doc []byte) *Scen {
+	ds, err := mzrun.Normalize(doc, e.Loader, true)
+	if err != nil {
+		e.Rep.Count("shared:normalize-error")
+		return nil
+	}
+	views, eo := mzrun.Entries(ds, sh.hasher())
+	if eo.Class != "ok" {
+		e.Rep.Count("shared:entries-" + eo.Class)
+		return nil
+	}
+	opts := []merklize.MerklizeOption{merklize.WithDocumentLoader(e.Loader), merklize.WithMerkleTree(sh.Adp)}
+	if sh.In.Cfg {
+		opts = append(opts, merklize.WithHasher(sh.Rc))
+	}
+	mz, out := mzrun.Merklize(doc, opts...)
+	e.Rep.Count("shared:merklize-" + out.Class)
+	if out.Class == "panic" || out.Class == "hang" {
+		e.Rep.Fail(e.Prop+"-"+out.Class, "MerklizeJSONLD on a shared tree: "+out.Msg, sh.In)
+	}
+	ok := out.Class == "ok"
+	cfg := sh.In.Cfg
+	sh.steps = append(sh.steps, func(f *coqgen.File) string {
+		var es []string
+		for _, v := range views {
+			es = append(es, mzrun.EntryCoq(f, v))
+		}
+		return fmt.Sprintf("RGMerk %s [%s] %s", coqgen.Bool(cfg), strings.Join(es, ";\n    "), coqgen.Bool(ok))
+	})
+	_ = sh.snapshot()
+	// which keys did the tree take (also on a failing run: the leaves added before the failure stay)
+	for _, v := range views {
+		k, err := v.Entry.KeyMtEntry()
+		if err != nil {
+			continue
+		}
+		if p, _, err := sh.MT.GenerateProof(context.Background(), k, nil); err == nil && p.Existence {
+			sh.InTree[k.String()] = true
+		}
+	}
+	var s *Scen
+	if ok {
+		s = &Scen{In: Input{Doc: doc, Hasher: sh.In.Hasher, Cfg: cfg}, Cfg: cfg, Rc: sh.Rc, Rd: sh.Rd, DefCnt: sh.DefCnt,
+			Entries: views, Mz: mz, Out: out, Members: map[string]mzrun.EntryView{}, Parent: sh, Idx: len(sh.Mzs)}
+		for _, v := range views {
+			if k, err := v.Entry.KeyMtEntry(); err == nil {
+				s.Members[k.String()] = v
+			}
+		}
+		sh.Mzs = append(sh.Mzs, s)
+	}
+	sh.refreshForeign()
+	return s
+}
+
+// DirectAdd: somebody else adds a leaf to the shared tree.
+func (e *Env) DirectAdd(sh *Shared, k, v *big.Int) {
+	err := sh.MT.Add(context.Background(), k, v)
+	ok := err == nil
+	sh.steps = append(sh.steps, func(f *coqgen.File) string {
+		return fmt.Sprintf("RGAdd %s %s %s", coqgen.SNum(k), coqgen.SNum(v), coqgen.Bool(ok))
+	})
+	if ok {
+		sh.InTree[k.String()] = true
+	}
+	_ = sh.snapshot()
+	sh.refreshForeign()
+}
+
+// probe: Root() and proofs of merklizer s (members, non-members, one foreign path) right now.
+func (e *Env) probe(sh *Shared, s *Scen, all bool) {
+	e.RootStep(s)
+	r := e.Cfg.Rng
+	for i, v := range s.Entries {
+		if all || i < 2 {
+			e.Proof(s, 0, v.Parts, "shared-member")
+		}
+	}
+	nm := e.NonMembers(s, 1)
+	var fams []string
+	for k := range nm {
+		fams = append(fams, k)
+	}
+	sort.Strings(fams)
+	for _, fam := range fams {
+		for _, parts := range nm[fam] {
+			if all || r.Intn(3) == 0 {
+				e.Proof(s, 0, parts, "shared-"+fam)
+			}
+		}
+	}
+	// a path of another merklizer on the same tree
+	for _, o := range sh.Mzs {
+		if o != s && len(o.Entries) > 0 {
+			e.Proof(s, 0, o.Entries[r.Intn(len(o.Entries))].Parts, "shared-foreign")
+			break
+		}
+	}
+	e.RootStep(s)
+}
+
+// DisjointDoc builds a small untyped document whose property IRIs all carry `tag`, so that its
+// paths are disjoint from those of every other document.
+func DisjointDoc(r *rand.Rand, tag string) []byte {
+	x := "http://www.w3.org/2001/XMLSchema#"
+	ctx := map[string]any{}
+	doc := map[string]any{"@id": "urn:shared:" + tag}
+	n := 2 + r.Intn(4)
+	for i := 0; i < n; i++ {
+		term := fmt.Sprintf("%s_p%d", tag, i)
+		iri := docgen.Vocab + term
+		switch r.Intn(6) {
+		case 0:
+			ctx[term] = map[string]any{"@id": iri, "@type": x + "string"}
+			doc[term] = fmt.Sprintf("text %d", r.Intn(100))
+		case 1:
+			ctx[term] = map[string]any{"@id": iri, "@type": x + "integer"}
+			doc[term] = fmt.Sprint(r.Intn(2000) - 1000)
+		case 2:
+			ctx[term] = map[string]any{"@id": iri, "@type": x + "boolean"}
+			doc[term] = r.Intn(2) == 0
+		case 3:
+			ctx[term] = map[string]any{"@id": iri, "@type": x + "dateTime"}
+			doc[term] = time.Unix(int64(1500000000+r.Intn(200000000)), 0).UTC().Format(time.RFC3339)
+		case 4:
+			ctx[term] = map[string]any{"@id": iri, "@type": x + "string"}
+			doc[term] = []any{"a" + fmt.Sprint(r.Intn(9)), "b" + fmt.Sprint(r.Intn(9)), "c"}
+		default:
+			inner := fmt.Sprintf("%s_q%d", tag, i)
+			ctx[term] = map[string]any{"@id": iri}
+			ctx[inner] = map[string]any{"@id": docgen.Vocab + inner, "@type": x + "string"}
+			doc[term] = map[string]any{inner: "nested"}
+		}
+	}
+	doc["@context"] = ctx
+	b, _ := json.Marshal(doc)
+	return b
+}
+
+// SharedScenario: A merklized, Root() read, the tree grows (direct Add, document B, maybe C, A again),
+// and after every growth the earlier merklizers must still prove their entries against THEIR Root().
+func (e *Env) SharedScenario(in SharedInput) *Shared {
+	defer e.LocalRng(in.RngSeed)()
+	sh, err := e.NewShared(in)
+	if err != nil {
+		return nil
+	}
+	defer e.CloseShared(sh)
+	r := e.Cfg.Rng
+	rnd := func() *big.Int {
+		z := new(big.Int).Rand(r, constants.Q)
+		return z
+	}
+	for di, doc := range in.Docs {
+		s := e.MerklizeInto(sh, doc)
+		if s != nil {
+			e.probe(sh, s, false)
+		}
+		if di == 0 || r.Intn(2) == 0 {
+			e.DirectAdd(sh, rnd(), rnd())
+		}
+		for _, o := range sh.Mzs {
+			e.probe(sh, o, o != s)
+		}
+	}
+	// the first document once more: its paths are taken (error; the tree must not change)
+	if len(in.Docs) > 0 {
+		e.MerklizeInto(sh, in.Docs[0])
+		for _, o := range sh.Mzs {
+			e.probe(sh, o, false)
+		}
+	}
+	return sh
+}
+
 // ---------- the C02 driver ----------
 
 func (e *Env) c02Scenario(in Input) *Scen {
+	defer e.LocalRng(in.RngSeed)()
 	s := e.NewScen(in)
 	defer e.Close(s)
 	if s.Out.Class != "ok" || s.NoCoq != "" {
@@ -824,6 +1144,36 @@ func ReadReplay(cfg *common.Config, l *ctxload.Loader) (Input, error) {
 	return in, nil
 }
 
+// ReadSharedReplay recognises a stored shared-tree scenario (possibly wrapped by a failing path).
+func ReadSharedReplay(cfg *common.Config, l *ctxload.Loader) (SharedInput, bool) {
+	var rf struct {
+		Input json.RawMessage `json:"input"`
+	}
+	var in SharedInput
+	if common.ReadJSON(cfg.Replay, &rf) != nil {
+		return in, false
+	}
+	var w struct {
+		Scenario json.RawMessage `json:"scenario"`
+	}
+	raw := rf.Input
+	if json.Unmarshal(rf.Input, &w) == nil && len(w.Scenario) > 0 {
+		var probe SharedInput
+		if json.Unmarshal(w.Scenario, &probe) == nil && probe.Shared {
+			raw = w.Scenario
+		}
+	}
+	if json.Unmarshal(raw, &in) != nil || !in.Shared {
+		return in, false
+	}
+	for u, b := range in.Ctx {
+		if l.Raw(u) == nil {
+			_ = l.Add(u, []byte(b))
+		}
+	}
+	return in, true
+}
+
 func Run(cfg *common.Config) (*common.Report, error) {
 	rep := common.NewReport("C02")
 	rep.Correspondence = "Merklizer.Run.mmismatches: merklize_from_entries + Script.run_step (mz_proof, mz_entry, mz_jsonld_type, mz_root, t_verify; coq/Merklizer/Model.v, Script.v) vs merklize.MerklizeJSONLD, Merklizer.Proof / Entry / JSONLDType / Root and merkletree.VerifyProof, on the entries of the same document with recorded primitive hash tables"
@@ -831,6 +1181,13 @@ func Run(cfg *common.Config) (*common.Report, error) {
 	e := &Env{Cfg: cfg, Rep: rep, Loader: ctxload.New(), Prop: "c02"}
 	sh := &Shards{Env: e, Size: 10}
 	if cfg.Replay != "" {
+		if sin, ok := ReadSharedReplay(cfg, e.Loader); ok {
+			if s := e.SharedScenario(sin); s != nil {
+				fmt.Printf("replay: shared-tree scenario, %d documents, %d merklizers, %d steps\n", len(sin.Docs), len(s.Mzs), len(s.steps))
+				sh.AddCase(s)
+			}
+			return rep, sh.Write("C02")
+		}
 		in, err := ReadReplay(cfg, e.Loader)
 		if err != nil {
 			return nil, err
@@ -852,7 +1209,7 @@ func Run(cfg *common.Config) (*common.Report, error) {
 		}
 		all := loadCtx(e.Loader, g)
 		hi := hs[cfg.Rng.Intn(len(hs))]
-		in := Input{Doc: doc.Bytes, Ctx: ctxFor(doc.Bytes, all), Hasher: hi, Cfg: i%3 != 0, DSLevel: i%4 == 1}
+		in := Input{Doc: doc.Bytes, Ctx: ctxFor(doc.Bytes, all), Hasher: hi, Cfg: i%3 != 0, DSLevel: i%4 == 1, RngSeed: cfg.Rng.Int63()}
 		if !in.Cfg {
 			in.Hasher = 0
 		}
@@ -871,6 +1228,34 @@ func Run(cfg *common.Config) (*common.Report, error) {
 			}
 		}
 		sh.Add(s)
+	}
+	// shared caller-provided tree: two or three merklizers, growth between Root() / Proof calls
+	for i := 0; i < cfg.Pick(12, 150); i++ {
+		nd := 2 + cfg.Rng.Intn(2)
+		sin := SharedInput{Shared: true, Hasher: hs[cfg.Rng.Intn(len(hs))], Cfg: i%3 != 0, Ctx: map[string]string{}, RngSeed: cfg.Rng.Int63()}
+		if !sin.Cfg {
+			sin.Hasher = 0
+		}
+		for j := 0; j < nd; j++ {
+			// the first document is a generated one; the others have disjoint paths, except that
+			// now and then a second generated document collides with the first (partial growth, error)
+			if j == 0 || (j == nd-1 && cfg.Rng.Intn(4) == 0) {
+				doc := g.Valid(1 + cfg.Rng.Intn(2))
+				all := loadCtx(e.Loader, g)
+				for u, b := range ctxFor(doc.Bytes, all) {
+					sin.Ctx[u] = b
+				}
+				sin.Docs = append(sin.Docs, doc.Bytes)
+			} else {
+				sin.Docs = append(sin.Docs, DisjointDoc(cfg.Rng, fmt.Sprintf("sh%d_%d", i, j)))
+			}
+		}
+		rep.Distinct(fmt.Sprintf("shared|%s|%d|%v", sin.Docs, sin.Hasher, sin.Cfg))
+		rep.Count("shared-scenario")
+		if s := e.SharedScenario(sin); s != nil {
+			rep.Count(fmt.Sprintf("shared-merklizers:%d", len(s.Mzs)))
+			sh.AddCase(s)
+		}
 	}
 	return rep, sh.Write("C02")
 }
